@@ -133,7 +133,7 @@ class TlcResult:
 
 
 def run_tlc(module, cfg, wd, env=None, workers=1, timeout=1800, simulate=None, extra=None, xss=True,
-            expect_fail=False, coverage=False, line_cb=None):
+            expect_fail=False, coverage=False, line_cb=None, xmx=None):
     """Run TLC on spec/<module>.tla with spec/<cfg> (cfg may be an absolute path of a generated cfg).
 
     Returns TlcResult. Raises MachineryError if TLC crashed / could not parse / timed out.
@@ -145,7 +145,7 @@ def run_tlc(module, cfg, wd, env=None, workers=1, timeout=1800, simulate=None, e
     cmd = ['java', '-XX:+UseParallelGC']
     if xss:
         cmd.append('-Xss512m')
-    cmd += ['-Xmx6g', '-cp', JAR, 'tlc2.TLC', '-workers', str(workers), '-metadir', meta, '-noGenerateSpecTE',
+    cmd += ['-Xmx%s' % (xmx or ('3g' if workers == 1 else '12g')), '-cp', JAR, 'tlc2.TLC', '-workers', str(workers), '-metadir', meta, '-noGenerateSpecTE',
             '-config', cfgpath]
     if simulate:
         cmd += ['-simulate', simulate]
